@@ -336,6 +336,9 @@ void threshold_optimal
     threshold_direction direction = threshold_direction::regular
 )
 {
+    if (src_view.width() == 0 || src_view.height() == 0)
+        return; // nothing to threshold; nth_channel_view would take the address of src_view(0, 0)
+
     if (mode == threshold_optimal_value::otsu)
     {
         for (std::size_t i = 0; i < src_view.num_channels(); i++)
